@@ -624,6 +624,14 @@ impl TransactionalMemory {
                 .copy_from_slice(&header.to_bytes(true));
             storage.flush()?;
         }
+        // A file that starts with the magic number but ends before the header does was truncated:
+        // report it, rather than asking the backend for bytes beyond its length
+        if storage.raw_file_len()? < DB_HEADER_SIZE as u64 {
+            return Err(StorageError::Corrupted(
+                "File is shorter than the database header".to_string(),
+            )
+            .into());
+        }
         let header_bytes = storage.read_direct(0, DB_HEADER_SIZE)?;
         let unrepaired =
             UnrepairedDatabaseHeader::from_bytes(&header_bytes, page_size.try_into().unwrap())?;
